@@ -257,6 +257,13 @@ func factsSes(f *facts) {
 	for _, n := range []string{"HandleRequest", "HandleUpgrade", "onWebSocket", "ServeHTTP", "Cleanup"} {
 		f.skeletonOf(eng, "engine", "server", n)
 	}
+	ty := loadPkg("types")
+	for _, n := range []string{"isOriginAllowed", "configureOrigin", "configureMethods", "configureCredentials", "configureAllowedHeaders",
+		"configureExposedHeaders", "configureMaxAge", "applyHeaders"} {
+		f.skeletonOf(ty, "types", "cors", n)
+	}
+	f.skeletonOf(ty, "types", "", "CorsMiddleware")
+	f.skeletonOf(ty, "types", "", "MiddlewareWrapper")
 	ut := loadPkg("utils")
 	f.skeletonOf(ut, "utils", "Yeast", "Yeast")
 	// constants of the timing model, in milliseconds
